@@ -17,7 +17,7 @@ MUTATING = {"append", "pop", "add", "update", "remove", "extend", "insert", "cle
 class CallMixin:
     builtins = {"len", "range", "next", "filter", "map", "int", "str", "float", "list", "set", "tuple", "sorted", "max",
                 "min", "all", "any", "enumerate", "zip", "abs", "isinstance", "reversed", "sum", "bool", "dict", "frozenset",
-                "round"}
+                "round", "dir"}
 
     def ev_Call(self, node, st):
         fn = node.func
@@ -252,7 +252,7 @@ class CallMixin:
             res = self.fresh_value(self.shape(rshape), uid("ret_" + qual.split(".")[-1]), st)
         # the callee may allocate: the allocation frontier moves forward by an unknown amount
         new_alloc = z3.Int(uid("alloc"))
-        st.assume(new_alloc >= to_z3(st.alloc))
+        self.frontier_moves(st, st.alloc, new_alloc)
         post = st.copy()
         post.alloc = new_alloc
         post.env = dict(env)
@@ -321,7 +321,10 @@ class CallMixin:
         bs = list(self.binders)
         g = AND(*self.guard)
         for text in c.ensures:
-            st.assume(z3.ForAll(bs, z3.Implies(g, to_z3(self.spec_eval(text, post, c)))))
+            fact = z3.ForAll(bs, z3.Implies(g, to_z3(self.spec_eval(text, post, c))))
+            st.assume(fact)
+            if self.__dict__.get("_elem_facts") is not None:
+                self._elem_facts.append(fact)  # handed to the state enclosing the comprehension (ExprMixin.comprehension)
         return res
 
     def raises_of(self, c):
@@ -348,6 +351,13 @@ class CallMixin:
             else:
                 raise Unsupported(f"constructor {cls}: missing field {fname}")
         if info.get("kind") == "record":
+            if getattr(self.sidecar, "NONNULL_FIELDS", False) and not self.spec:
+                # opt-in of the sidecar: an Optional value passed for a record field declared non-Optional must be shown
+                # not to be None at the constructor call (obligation); the record then holds its payload
+                for f_, v_ in list(vals.items()):
+                    if isinstance(v_, VOpt) and self.shape(info["fields"][f_])[0] != "opt":
+                        self.emit(f"construct[{_short(node)}].{f_}-not-None", st, NOT(v_.isnone), node, kind="call-pre", guard=list(self.guard))
+                        vals[f_] = v_.val
             rec = VRec(cls, {f: self.coerce(v, self.shape(info["fields"][f])) for f, v in vals.items()})
             post = f"{cls}.__post_init__"
             if self.resolve(post):
@@ -1069,6 +1079,12 @@ class CallMixin:
 
     def bi_round(self, args, kw, node, st):
         raise Unsupported("round()")
+
+    def bi_dir(self, args, kw, node, st):
+        """dir(obj) of a concrete object of the real module (a class, an enum): the list of attribute names Python gives"""
+        if len(args) == 1 and not kw and isinstance(args[0], VConc):
+            return VConc(list(dir(args[0].obj)))
+        raise Unsupported("dir() of this value")
 
 
 class VDictView:
